@@ -19,10 +19,14 @@ CHECKS = {
              note='round constants and matrices are taken from the library tables (no independent source in the repository); lane kernels by contract (C01/C02/C11)', tech=AI + ': residue normal forms with opaque power products; sibling agreement'),
  'C07': dict(cat='proof', text='linear_hash_seq/linear_hash/linear_hash_avx512 interpreted for every length 0..256 (quick) / 0..2048 (thorough) with the permutation opaque: digest cells and input read set equal the reference sponge; universal in element values, bounded in length',
              note='bounded in the length (all residues mod 8 and both sides of the pass-through threshold covered many times); permutation opaque (C06)', tech=AI + ' with shape parameters fixed by constant propagation (bounded-shape mode)'),
+ 'C08': dict(cat='proof', text='all six builders and the two default wrappers interpreted for every shape in the bound (rows 1..8, cols incl. 0, dim 1/3, batch sizes incl. > cols) with the permutation opaque: each tree cell equals the reference tree, written extent = getTreeNumElements(rows), read set exact, no out-of-bounds; helper functions for symbolic sizes',
+             note='bounded in shape, universal in data; permutation/sponge opaque (C06/C07)', tech='abstract interpretation of LLVM IR with shape parameters fixed by constant propagation vs reference tree over hash-consed opaque permutation terms'),
  'C09': dict(cat='proof', text='scalar cubic-extension routines interpreted abstractly and expanded as polynomials mod p; equality with schoolbook arithmetic in F_p[x]/(x^3-x-1) under all aliasing patterns; inv by the cofactor identity; isOne by exhaustive path exploration over its residue tests; batchInverse over opaque extension elements for lengths in a stated bound (1..32 quick, 1..256 thorough)',
              note='trusts clang lowering, glv IR semantics, scalar field contracts (C01), irreducibility of x^3-x-1; batchInverse bounded in length', tech=AI + ': polynomial normal forms (ring identities), path exploration for predicates'),
  'C11': dict(cat='proof', text='as C02 for the 14 contracted AVX512 kernels on the -D__AVX512__ configuration, all 8 lanes',
              note='as C02; the AVX512 code is never compiled by the shipped test build', tech='abstract interpretation (limb-split integer polynomials + intervals + carry trace partitioning)'),
+ 'C12': dict(cat='proof', text='(1) static rules on each of the 16/20 outlined parallel regions (no write to captured variables, no thread-identity/reduction/atomic/dynamic-schedule construct, static schedule); (2) per-iteration footprints of every region instance for bounded shapes (transforms, Merkle builders, parcpy/parSetZero for all sizes 0..40 x thread arguments -1..9): pairwise free of write/write and write/read overlap on non-private memory, for all data and therefore all schedules and team sizes',
+             note='iterations are the units a static schedule distributes; privatisation read from the compiler outlining; footprint tier bounded in shape', tech='effect/footprint analysis over clang -fopenmp outlined IR (abstract interpretation, one abstract thread owning all chunks) + structural rules on outlined functions'),
  'C13': dict(cat='proof', text='every AVX2 dot/spmv/mmult kernel interpreted on symbolic lanes: result lanes have the normal form of the documented matrix product mod p; coefficient reads inside the declared array; lane-kernel typestate preconditions at each call site',
              note='lane kernels replaced by their contracts (proved under C02); 8-bit variants under the documented <2^8 precondition', tech=AI + ': residue normal forms + representation typestate at call sites'),
  'C14': dict(cat='proof', text='every AVX512 dot/spmv/mmult kernel interpreted on two interleaved symbolic states: per-state matrix product normal forms and representation-typestate preconditions at every lane-kernel call site (the rule that exposed the add_avx512_b_c defect)',
